@@ -47,14 +47,30 @@ type c28Sub struct {
 
 func c28Idx(v int64) int { return int(v >> 40) }
 
+var (
+	c28Mu  sync.Mutex
+	c28Srv *realServer
+)
+
 func c28One(c *fw.Ctx, cs c28Case) {
 	r := rand.New(rand.NewSource(cs.Seed))
-	rs, err := startRealServer(srvCfg{Vars: cs.Nodes})
-	if err != nil {
-		c.Inconclusive("server start: " + err.Error())
-		return
+	// one server per worker process (an instance holds the whole standard address space); every history gets
+	// variables of its own
+	c28Mu.Lock()
+	if c28Srv == nil {
+		s, err := startRealServer(srvCfg{})
+		if err != nil {
+			c28Mu.Unlock()
+			c.Inconclusive("server start: " + err.Error())
+			return
+		}
+		c28Srv = s
 	}
-	defer rs.Srv.Close()
+	rs := &realServer{Srv: c28Srv.Srv, NS: c28Srv.NS, Endpoint: c28Srv.Endpoint}
+	c28Mu.Unlock()
+	for i := 0; i < cs.Nodes; i++ {
+		rs.Vars = append(rs.Vars, rwVar(rs.NS, fmt.Sprintf("h%d-%d-v%d", cs.Index, cs.Seed&0xffff, i), int64(0)))
+	}
 	bg := context.Background()
 	dial := func() (*opcua.Client, error) {
 		cl, err := opcua.NewClient(rs.Endpoint, opcua.SecurityMode(ua.MessageSecurityModeNone), opcua.AutoReconnect(false), opcua.RequestTimeout(5*time.Second))
